@@ -319,7 +319,7 @@ func runC10(rc *fw.RunCtx) {
 	}
 	ctx, cancel := context.WithCancel(context.Background())
 	out := evalTask(s, "main", ctx, prog.Src, baseOpts(extra))
-	s.Until = func() bool { return out.Done && len(aliveExcept(s, "vm.watcher")) == 0 }
+	s.Until = func() bool { return out.Done && len(aliveExcept(s, "vm.watcher", "file.watcher")) == 0 }
 	prefix := -1
 	if raceBuild {
 		// phase R (as in C09): seeded serial prefix, then a parallel window
@@ -335,7 +335,7 @@ func runC10(rc *fw.RunCtx) {
 	}
 	verdict := s.Run()
 	mainDone := out.Done
-	alive := aliveExcept(s, "vm.watcher")
+	alive := aliveExcept(s, "vm.watcher", "file.watcher")
 	stuck := s.Shutdown(cancel)
 	rc.AbsorbSim(s, strat.Name())
 	rc.Digest ^= sim.HashString(prog.Src)
